@@ -76,6 +76,11 @@ def all_jobs():
         mg = '_ZNK4bloc%d%s4typeERNS_7ContextE' % (len(c), c)
         J.append(dict(id='type_' + n, src='blocc/operator/%s.cpp' % n, contract='type_%s.c' % n, enforce=mg, roots=[mg], replace=['VCALL_Expression_type'],
                       cut=['VCALL_Expression_type', RTE_CTOR, RTE_CTOR_S], props=['C01', 'C02'], pretty='bloc::%s::type' % c, canaries=['normal']))
+    CX_CUT = ['_ZNK4bloc13PluginManager7pluggedEj', '_ZN4bloc13PluginManager8instanceEv', RTE_CTOR, RTE_CTOR_S]
+    for jid, mg, defs in (('complex_dtor', '_ZN4bloc7ComplexD2Ev', []), ('complex_copy', '_ZN4bloc7ComplexC2ERKS0_', []), ('complex_swap', '_ZN4bloc7Complex4swapERS0_', []),
+                          ('complex_assign_distinct', '_ZN4bloc7ComplexaSERKS0_', ['ASSIGN_DISTINCT']), ('complex_assign_shared', '_ZN4bloc7ComplexaSERKS0_', [])):
+        J.append(dict(id=jid, src='blocc/complex.cpp', contract='complex.c', enforce=mg, roots=[mg], replace=[], cut=CX_CUT, defines=defs,
+                      props=['C01', 'C17'], pretty='bloc::Complex (%s)' % jid, canaries=['normal'], structs=DEFAULT_STRUCTS + ['bloc::PLUGGED_MODULE', 'bloc::Complex']))
     mg = '_ZNK4bloc12FORStatement4doitERNS_7ContextE'
     CTX_STUBS = ['_ZN4bloc7Context10topControlEv', '_ZN4bloc7Context14topControlDataEv', '_ZN4bloc7Context12stackControlEPKNS_10ControllerEPv',
                  '_ZN4bloc7Context14unstackControlEv', '_ZN4bloc7Context9getSymbolEj', '_ZN4bloc7Context13storeVariableEjONS_5ValueE',
